@@ -389,7 +389,16 @@ impl DirectoryNamespace {
     /// * `names` - The vector of table names to paginate
     /// * `page_token` - Skip items until finding one greater than this value (start_after semantics)
     /// * `limit` - Maximum number of items to keep
-    fn apply_pagination(names: &mut Vec<String>, page_token: Option<String>, limit: Option<i32>) {
+    ///
+    /// # Returns
+    ///
+    /// The page token of the next page when `limit` cut the list (the last name kept, to be
+    /// sent back as `page_token`), or `None` when the page holds the rest of the listing.
+    fn apply_pagination(
+        names: &mut Vec<String>,
+        page_token: Option<String>,
+        limit: Option<i32>,
+    ) -> Option<String> {
         // Sort alphabetically for consistent ordering
         names.sort();
 
@@ -407,10 +416,14 @@ impl DirectoryNamespace {
 
         // Apply limit
         if let Some(limit) = limit {
-            if limit >= 0 {
+            if limit >= 0 && names.len() > limit as usize {
                 names.truncate(limit as usize);
+                // More entries remain: tell the caller where the next page starts
+                return names.last().cloned();
             }
         }
+
+        None
     }
 
     /// List tables using directory scanning (fallback method)
@@ -727,8 +740,10 @@ impl LanceNamespace for DirectoryNamespace {
         };
 
         // Apply sorting and pagination
-        Self::apply_pagination(&mut tables, request.page_token, request.limit);
-        let response = ListTablesResponse::new(tables);
+        let next_page_token =
+            Self::apply_pagination(&mut tables, request.page_token, request.limit);
+        let mut response = ListTablesResponse::new(tables);
+        response.page_token = next_page_token;
         Ok(response)
     }
 
